@@ -10,6 +10,7 @@ import (
 	"pgregory.net/rapid"
 	"verifharness/evid"
 	"verifharness/gen"
+	"verifharness/probe"
 	"verifharness/rk"
 	"verifharness/sem"
 	"verifharness/sgen"
@@ -33,7 +34,7 @@ func str(s string) *gen.Node { return gen.NStr(s) }
 func judge(t rk.Failer, slot string, c *sem.Case, key string, nontrivial bool, labels ...string) sem.Verdict {
 	c.V2 = true
 	c.Print(nil)
-	v := sem.Decide(c, func() sem.ImplOut { return sem.RunV2(c, nil) }, nil, false, true)
+	v := sem.Decide(c, func() sem.ImplOut { return sem.RunV2(c, &probe.Sig{}) }, nil, false, true)
 	if v.Discard != nil {
 		evid.Discard(v.Discard.Error())
 		return v
@@ -53,6 +54,9 @@ var voids = []struct {
 	{"pvoid1(arg)", func() *gen.Node { return gen.NCall("pvoid1", i64(77)) }},
 	{"attr", func() *gen.Node { return gen.NAttr(id("o"), id("fld")) }},
 	{"objless-index", func() *gen.Node { return gen.NIndex(nil, i64(0)) }},
+	{"pvoidv(args)", func() *gen.Node { return gen.NCall("pvoidv", i64(41), i64(42)) }},
+	{"pvoidv()", func() *gen.Node { return gen.NCall("pvoidv") }},
+	{"probe(args)", func() *gen.Node { return gen.NCall("probe", str("as-value"), i64(43)) }},
 	{"pmulti(2)", func() *gen.Node { return gen.NCall("pmulti", i64(8), i64(9)) }},
 	{"pmulti(0)", func() *gen.Node { return gen.NCall("pmulti") }},
 	{"nested-void-arg", func() *gen.Node { return gen.NCall("pval", gen.NCall("pvoid")) }},
@@ -71,16 +75,32 @@ var positions = []struct {
 	{"for-cond", func(v *gen.Node) []*gen.Node {
 		return []*gen.Node{gen.NFor(nil, v, nil, []*gen.Node{gen.NCall("probe", str("body")), gen.NBreak()})}
 	}},
-	{"binary-left", func(v *gen.Node) []*gen.Node { return []*gen.Node{gen.NSet("r", gen.NBin("+", v, i64(1))), gen.NCall("probe", str("r"), id("r"))} }},
-	{"binary-right", func(v *gen.Node) []*gen.Node { return []*gen.Node{gen.NSet("r", gen.NBin("+", i64(1), v)), gen.NCall("probe", str("r"), id("r"))} }},
-	{"compare", func(v *gen.Node) []*gen.Node { return []*gen.Node{gen.NSet("r", gen.NBin("==", v, i64(5))), gen.NCall("probe", str("r"), id("r"))} }},
-	{"logic-right", func(v *gen.Node) []*gen.Node { return []*gen.Node{gen.NSet("r", gen.NBin("&&", gen.NBool(true), v)), gen.NCall("probe", str("r"), id("r"))} }},
-	{"unary-minus", func(v *gen.Node) []*gen.Node { return []*gen.Node{gen.NSet("r", gen.NUnary("-", v)), gen.NCall("probe", str("r"), id("r"))} }},
-	{"unary-not", func(v *gen.Node) []*gen.Node { return []*gen.Node{gen.NSet("r", gen.NUnary("!", v)), gen.NCall("probe", str("r"), id("r"))} }},
+	{"binary-left", func(v *gen.Node) []*gen.Node {
+		return []*gen.Node{gen.NSet("r", gen.NBin("+", v, i64(1))), gen.NCall("probe", str("r"), id("r"))}
+	}},
+	{"binary-right", func(v *gen.Node) []*gen.Node {
+		return []*gen.Node{gen.NSet("r", gen.NBin("+", i64(1), v)), gen.NCall("probe", str("r"), id("r"))}
+	}},
+	{"compare", func(v *gen.Node) []*gen.Node {
+		return []*gen.Node{gen.NSet("r", gen.NBin("==", v, i64(5))), gen.NCall("probe", str("r"), id("r"))}
+	}},
+	{"logic-right", func(v *gen.Node) []*gen.Node {
+		return []*gen.Node{gen.NSet("r", gen.NBin("&&", gen.NBool(true), v)), gen.NCall("probe", str("r"), id("r"))}
+	}},
+	{"unary-minus", func(v *gen.Node) []*gen.Node {
+		return []*gen.Node{gen.NSet("r", gen.NUnary("-", v)), gen.NCall("probe", str("r"), id("r"))}
+	}},
+	{"unary-not", func(v *gen.Node) []*gen.Node {
+		return []*gen.Node{gen.NSet("r", gen.NUnary("!", v)), gen.NCall("probe", str("r"), id("r"))}
+	}},
 	{"probe-arg", func(v *gen.Node) []*gen.Node { return []*gen.Node{gen.NCall("probe", str("arg"), v)} }},
 	{"probe-2nd-arg", func(v *gen.Node) []*gen.Node { return []*gen.Node{gen.NCall("probe", str("arg"), i64(3), v)} }},
-	{"pval-arg", func(v *gen.Node) []*gen.Node { return []*gen.Node{gen.NSet("r", gen.NCall("pval", v)), gen.NCall("probe", str("r"), id("r"))} }},
-	{"assign-source", func(v *gen.Node) []*gen.Node { return []*gen.Node{gen.NSet("r", v), gen.NCall("probe", str("r"), id("r"))} }},
+	{"pval-arg", func(v *gen.Node) []*gen.Node {
+		return []*gen.Node{gen.NSet("r", gen.NCall("pval", v)), gen.NCall("probe", str("r"), id("r"))}
+	}},
+	{"assign-source", func(v *gen.Node) []*gen.Node {
+		return []*gen.Node{gen.NSet("r", v), gen.NCall("probe", str("r"), id("r"))}
+	}},
 	{"assign-source-2nd", func(v *gen.Node) []*gen.Node {
 		return []*gen.Node{gen.NAssign("=", []*gen.Node{id("r"), id("s")}, []*gen.Node{i64(3), v}), gen.NCall("probe", str("r"), id("r"), id("s"))}
 	}},
@@ -102,15 +122,27 @@ var positions = []struct {
 	{"slice-step", func(v *gen.Node) []*gen.Node {
 		return []*gen.Node{gen.NSet("l", gen.NList(i64(10), i64(11), i64(12), i64(13), i64(14), i64(15))), gen.NSet("r", gen.NSlice(id("l"), nil, nil, gen.NParen(v), true)), gen.NCall("probe", str("r"), id("r"))}
 	}},
-	{"list-element", func(v *gen.Node) []*gen.Node { return []*gen.Node{gen.NSet("r", gen.NList(i64(1), v)), gen.NCall("probe", str("r"), id("r"))} }},
-	{"map-value", func(v *gen.Node) []*gen.Node { return []*gen.Node{gen.NSet("r", gen.NMap(str("k"), v)), gen.NCall("probe", str("r"), id("r"))} }},
-	{"map-key", func(v *gen.Node) []*gen.Node { return []*gen.Node{gen.NSet("r", gen.NMap(gen.NParen(v), i64(1))), gen.NCall("probe", str("r"), id("r"))} }},
+	{"list-element", func(v *gen.Node) []*gen.Node {
+		return []*gen.Node{gen.NSet("r", gen.NList(i64(1), v)), gen.NCall("probe", str("r"), id("r"))}
+	}},
+	{"map-value", func(v *gen.Node) []*gen.Node {
+		return []*gen.Node{gen.NSet("r", gen.NMap(str("k"), v)), gen.NCall("probe", str("r"), id("r"))}
+	}},
+	{"map-key", func(v *gen.Node) []*gen.Node {
+		return []*gen.Node{gen.NSet("r", gen.NMap(gen.NParen(v), i64(1))), gen.NCall("probe", str("r"), id("r"))}
+	}},
 	{"forin-iter", func(v *gen.Node) []*gen.Node {
 		return []*gen.Node{gen.NForIn("q", gen.NParen(v), []*gen.Node{gen.NCall("probe", str("q"), id("q"))})}
 	}},
-	{"in-left", func(v *gen.Node) []*gen.Node { return []*gen.Node{gen.NSet("r", gen.NBin("in", v, gen.NList(i64(5), str("prev")))), gen.NCall("probe", str("r"), id("r"))} }},
-	{"in-right", func(v *gen.Node) []*gen.Node { return []*gen.Node{gen.NSet("r", gen.NBin("in", str("p"), v)), gen.NCall("probe", str("r"), id("r"))} }},
-	{"len-arg", func(v *gen.Node) []*gen.Node { return []*gen.Node{gen.NSet("r", gen.NCall("len", v)), gen.NCall("probe", str("r"), id("r"))} }},
+	{"in-left", func(v *gen.Node) []*gen.Node {
+		return []*gen.Node{gen.NSet("r", gen.NBin("in", v, gen.NList(i64(5), str("prev")))), gen.NCall("probe", str("r"), id("r"))}
+	}},
+	{"in-right", func(v *gen.Node) []*gen.Node {
+		return []*gen.Node{gen.NSet("r", gen.NBin("in", str("p"), v)), gen.NCall("probe", str("r"), id("r"))}
+	}},
+	{"len-arg", func(v *gen.Node) []*gen.Node {
+		return []*gen.Node{gen.NSet("r", gen.NCall("len", v)), gen.NCall("probe", str("r"), id("r"))}
+	}},
 }
 
 // predecessors leave a distinguishable value in the result register right before the consumer
@@ -166,7 +198,25 @@ func multiAssign(g *sgen.G, d int) *gen.Node {
 	pick := func(label string) string { return g.Names[rapid.IntRange(0, len(g.Names)-1).Draw(g.T, label)] }
 	a, b := pick("ma"), pick("mb")
 	g.Feat["multi-assign"] = true
-	switch rapid.IntRange(0, 5).Draw(g.T, "makind") {
+	switch rapid.IntRange(0, 8).Draw(g.T, "makind") {
+	case 6: // a multi-value call first, then a scalar: the collected values must survive the later evaluation
+		g.Feat["spread-multi"] = true
+		g.Feat["multi-then-scalar"] = true
+		c := g.Names[rapid.IntRange(0, len(g.Names)-1).Draw(g.T, "mc")]
+		g.Env[a], g.Env[b], g.Env[c] = sgen.TInt, sgen.TInt, sgen.TInt
+		g.Defined[a], g.Defined[b], g.Defined[c] = true, true, true
+		return gen.NAssign("=", []*gen.Node{id(a), id(b), id(c)}, []*gen.Node{gen.NCall("pmulti", g.ExprOf(sgen.TInt, 1), g.ExprOf(sgen.TInt, 1)), g.ExprOf(sgen.TInt, 2)})
+	case 7: // two multi-value calls
+		g.Feat["spread-multi"] = true
+		g.Feat["multi-then-multi"] = true
+		g.Env["m1"], g.Env["m2"], g.Env["m3"], g.Env["m4"] = sgen.TInt, sgen.TStr, sgen.TInt, sgen.TStr
+		g.Defined["m1"], g.Defined["m2"], g.Defined["m3"], g.Defined["m4"] = true, true, true, true
+		return gen.NAssign("=", []*gen.Node{id("m1"), id("m2"), id("m3"), id("m4")}, []*gen.Node{gen.NCall("pmulti", i64(10), str("x")), gen.NCall("pmulti", g.ExprOf(sgen.TInt, 1), g.ExprOf(sgen.TStr, 1))})
+	case 8: // scalar, multi, scalar
+		g.Feat["spread-multi"] = true
+		g.Env["m1"], g.Env["m2"], g.Env["m3"], g.Env["m4"] = sgen.TInt, sgen.TInt, sgen.TInt, sgen.TInt
+		g.Defined["m1"], g.Defined["m2"], g.Defined["m3"], g.Defined["m4"] = true, true, true, true
+		return gen.NAssign("=", []*gen.Node{id("m1"), id("m2"), id("m3"), id("m4")}, []*gen.Node{g.ExprOf(sgen.TInt, 1), gen.NCall("pmulti", i64(20), i64(30)), g.ExprOf(sgen.TInt, 1)})
 	case 0:
 		if len(defined) >= 2 {
 			x, y := defined[0], defined[len(defined)-1]
@@ -246,7 +296,7 @@ func commonLanguage(prog []*gen.Node) bool {
 			}
 		case gen.Call:
 			switch n.Name {
-			case "pmulti", "pvoid1":
+			case "pmulti", "pvoid1", "pvoidv":
 				ok = false
 			}
 		case gen.Attr:
@@ -300,6 +350,10 @@ func TestFixedDialect(t *testing.T) {
 		{gen.NAssign("=", []*gen.Node{id("a"), id("b"), id("c")}, []*gen.Node{gen.NCall("pmulti", i64(1), i64(2), i64(3))}), gen.NCall("probe", str("spread"), id("a"), id("b"), id("c"))},
 		{gen.NAssign("=", []*gen.Node{id("a"), id("b"), id("c")}, []*gen.Node{i64(0), gen.NCall("pmulti", i64(2), i64(3))}), gen.NCall("probe", str("spread2"), id("a"), id("b"), id("c"))},
 		{gen.NSet("a", i64(5)), gen.NSet("b", gen.NCall("pvoid")), gen.NCall("probe", str("stale"), id("b"))},
+		{gen.NAssign("=", []*gen.Node{id("a"), id("b"), id("c")}, []*gen.Node{gen.NCall("pmulti", i64(10), i64(20)), i64(5)}), gen.NCall("probe", str("multi-first"), id("a"), id("b"), id("c"))},
+		{gen.NAssign("=", []*gen.Node{id("a"), id("b"), id("c"), id("d")}, []*gen.Node{gen.NCall("pmulti", i64(10), i64(20)), gen.NCall("pmulti", i64(30), i64(40))}), gen.NCall("probe", str("multi-multi"), id("a"), id("b"), id("c"), id("d"))},
+		{gen.NSet("a", i64(5)), gen.NSet("b", gen.NCall("pvoidv", i64(1), i64(2))), gen.NCall("probe", str("stale"), id("b"))},
+		{gen.NIf([]*gen.Node{gen.NCall("pvoidv", i64(0))}, [][]*gen.Node{{gen.NCall("probe", str("then"))}}, []*gen.Node{gen.NCall("probe", str("else"))}, true)},
 		{gen.NSet("a", i64(5)), gen.NSet("b", gen.NCall("pvoid1", i64(6))), gen.NCall("probe", str("stale"), id("b"))},
 		{gen.NSet("o", gen.NMap()), i64(5), gen.NSet("x", gen.NAttr(id("o"), id("b"))), gen.NCall("probe", str("stale"), id("x"))},
 		{gen.NSet("l", gen.NList(i64(1))), gen.NAssign("=", []*gen.Node{gen.NIndex(id("l"), i64(0)), id("z")}, []*gen.Node{i64(7), gen.NIndex(id("l"), i64(0))}), gen.NCall("probe", str("elem"), id("l"), id("z"))},
